@@ -186,6 +186,9 @@ def case(draw):
     def buf(pal, hi):
         return draw(st.one_of(st.sampled_from(pal), st.sampled_from(pal), st.floats(0.0, hi, allow_nan=False, allow_subnormal=False)))
     tb1, fb1 = buf(TB, 50.0), buf(FB, 20000.0)
+    if draw(st.integers(0, 5)) == 0:
+        # numerically equal buffers on the two axes (1 s and 1 Hz, 100 and 100): nothing special about them
+        tb1 = fb1 = draw(st.sampled_from([0.5, 1.0, 2.0, 10.0, 100.0]))
     if draw(st.booleans()):
         k = draw(st.sampled_from([1.0, 1.5, 2.0, 10.0]))  # proportional growth: the superset law is asserted for every type
         tb2, fb2 = tb1 * k, fb1 * k
